@@ -155,6 +155,10 @@ class SI:
             if v['verdict'] == 'accepted':
                 self.new[v['name']] = (common.unjrat(v['value']), [common.unjrat(x) for x in v['dim']], float(common.unjrat(v['tol'])))
         self.units.update(self.new)
+        # names the generator uses as *unknown* names: only those that have no meaning over the extended reference either
+        # (a maintainer may add `hr`, `inch`, ...: then they are units, not malformed texts)
+        reps = ctx.model([{'op': 'c10.eval_ext', 'text': t} for t in BAD_NAMES])
+        self.bad_names = [t for t, r in zip(BAD_NAMES, reps) if 'err' in r] or ['foo']
 
     def named(self, prefix, unit):
         """meaning of the name prefix+unit: the unit itself if the concatenation is a unit name"""
@@ -303,6 +307,9 @@ EXPS = ['2', '3', '-1', '-2', '1', '0', '4', '-3', '2.0', '0.5', '-0.5', '1.5', 
 EXPS_NEAR = ['1.000001', '2.00001', '-2.00001', '0.000005', '-1.000002']
 
 
+BAD_NAMES = ['foo', 'ohm', 'inch', 'hr', 'x', 'T', 'kk', 'inf', 'nan', 'Infinity', 'e', 'dal', 'mmm']
+
+
 def gen_base(rng, si, depth, names, allow_bad=False):
     r = rng.random()
     if depth > 0 and r < 0.22:
@@ -310,7 +317,7 @@ def gen_base(rng, si, depth, names, allow_bad=False):
     if r < 0.40:
         return ('num', rng.choice(NUMS))
     if allow_bad and r < 0.43:
-        return ('bad', rng.choice(['foo', 'ohm', 'inch', 'hr', 'x', 'T', 'kk', 'inf', 'nan', 'Infinity', 'e', 'dal', 'mmm']))
+        return ('bad', rng.choice(getattr(si, 'bad_names', BAD_NAMES)))
     return rng.choice(names)
 
 
